@@ -76,6 +76,7 @@ def sizedFields (bits : Nat) (p : Layout) : List String :=
     rel "un2_bits" w2, kv "un2_low" (w2 % 2), kv "un2_first" (if isFirst w2 then 1 else 0),
     rel "un2_borrow" (unionBorrow w2).2, kv "un2_var" (if (unionBorrow w2).1 then 1 else 2),
     rel "rc_as_ptr" (asPtr bits B p), rel "rc_into" (intoRaw bits B p),
+    rel "rc_inc" (asPtr bits B p), kv "rc_inc_cnt" 2,
     relOpt "rc_rt_base" (fromRaw bits (intoRaw bits B p) p),
     lay "er_dealloc" (arcInnerLayout bits er.1).1,
     rel "er_as_ptr" (asPtr bits B er.1),
@@ -110,6 +111,7 @@ def qThin (bits : Nat) (H T : Layout) (len : Nat) (c : HsCtor) : String :=
             rel "t_ptr" (thinPtr B), rel "t_heap" (thinHeapPtr B), rel "t_as_ptr" (thinAsPtr B),
             rel "t_into_raw" (thinIntoRaw B), rel "rt_base" (thinFromRaw (thinIntoRaw B)),
             rel "rc_as_ptr" (thinAsPtr B), rel "rc_into" (thinIntoRaw B),
+            rel "rc_inc" (thinAsPtr B), kv "rc_inc_cnt" 2,
             rel "rc_rt_base" (thinFromRaw (thinIntoRaw B)),
             rel "deref" d, rel "hdr" d, rel "lenf" (thinLengthAddr bits B H T),
             rel "lenf_fat" (fatLengthAddr bits B H T len), kv "lenv" len,
